@@ -37,7 +37,7 @@ ASSUMPTIONS = [
     "a field value 'changes' when it is replaced by another object that is not an equal value of the same type; node-valued fields must keep the identical object",
     "registry membership may change only as specified for detach / replace (C03's subject) and is not part of the frame",
 ]
-MUST_SEE = ["compiled_xpath_reused", "mutable_container_in_property", "list_valued_tuple_fields", "hash_churn_rounds", "copy_protocol_ops", "digest_size_switches", "ops", "frames_checked", "raising_ops", "watched_writes_on_new_nodes", "setattr_rejected", "delattr_rejected", "repo_tests_contract_evaluations", "deserialize_registry_hits", "failing_replace_on_suffix_twin", "transform_returns_existing_node", "transform_rebuilds_equal_node"]
+MUST_SEE = ["origin_algebra_on_node_origins", "comparisons_with_equal_but_distinct_origin_objects", "compiled_xpath_reused", "mutable_container_in_property", "list_valued_tuple_fields", "hash_churn_rounds", "copy_protocol_ops", "digest_size_switches", "ops", "frames_checked", "raising_ops", "watched_writes_on_new_nodes", "setattr_rejected", "delattr_rejected", "repo_tests_contract_evaluations", "deserialize_registry_hits", "failing_replace_on_suffix_twin", "transform_returns_existing_node", "transform_rebuilds_equal_node"]
 CONFIG = {
     "quick": {"shards": 16, "histories": 30, "ops": 35, "watchdog_s": 600},
     "thorough": {"shards": 32, "histories": 200, "ops": 60, "watchdog_s": 3400},
@@ -57,6 +57,8 @@ def _deep(v):
 
     from pyoak.node import ASTNode
 
+    if hasattr(v, "fqn") and hasattr(v, "source") and hasattr(v, "position"):
+        return ("origin", O.canon_real_full(v))  # an origin object: what it says must stay what it said
     if isinstance(v, list) and any(isinstance(x, ASTNode) for x in v):
         return ("elements", [id(x) for x in v])  # a list of nodes: the same objects in the same order
     return copy.deepcopy(v) if isinstance(v, (dict, list, set, bytearray)) else None
@@ -86,6 +88,10 @@ def diff_frame(snap):
             except AttributeError:
                 return f"{type(n).__name__}.{name} was deleted"
             if new is old:
+                if isinstance(deep, tuple) and deep and deep[0] == "origin":
+                    if O.canon_real_full(new) != deep[1]:
+                        return f"{type(n).__name__}.{name}: the origin object held by the field was changed in place"
+                    continue
                 if isinstance(deep, tuple) and deep and deep[0] == "elements":
                     if [id(x) for x in new] != deep[1]:
                         return f"{type(n).__name__}.{name}: the list held by the field was edited in place"
@@ -99,6 +105,9 @@ def diff_frame(snap):
                 return f"{type(n).__name__}.{name}: tuple object replaced (same elements)"
             if type(new) is not type(old) or new != old:
                 return f"{type(n).__name__}.{name} changed from {old!r:.60} to {new!r:.60}"
+            if not isinstance(old, (str, int, float, bool, bytes, type(None))):
+                # an equal but other object (e.g. the origin of the node compared with) was bound to the field
+                return f"{type(n).__name__}.{name}: the field was re-bound to another (equal) object of type {type(new).__name__}"
         if n.id != id_:
             return f"{type(n).__name__}.id changed from {id_} to {n.id}"
         if n.content_id != cid:
@@ -257,8 +266,11 @@ def histories(ctx, U, state, take_frame, diff_frame):
         handles = []
         log = []
         tg = G.TreeGen(rng, U, max_nodes=12, max_depth=5, max_width=4, share=0.1, twin=0.3, p_origin=0.5, hostile=0.05)
+        spec_of = {}
         for _ in range(3):
-            handles.append(build(U, tg.tree()))
+            sp_ = tg.tree()
+            handles.append(build(U, sp_))
+            spec_of[id(handles[-1])] = sp_
         if case % 3 == 0:
             # a property typed Any that holds nested mutable containers (the node owns them)
             handles.append(U.cls[f"{P}List"](items=(U.cls[f"{P}Handle"](name="h", symbol={"b": {3, 1, 2}, "a": [2, 1], "c": {"z": 1, "y": {9, 8}}}), U.cls[f"{P}Leaf"](v=case))))
@@ -514,6 +526,23 @@ def histories(ctx, U, state, take_frame, diff_frame):
                     k.detach_self()
                 copy.deepcopy(h)
 
+        def op_origin_algebra():
+            # the origins owned by nodes are used as operands of the origin algebra (first operand included)
+            from pyoak.origin import concat_origins, merge_origins
+
+            ns = [x for x in nodes()]
+            a, b, c = (rng.choice(ns).origin for _ in range(3))
+            ctx.count("origin_algebra_on_node_origins")
+            concat_origins(a, b, c), merge_origins(a, b), a + b, concat_origins(a, O.build_origin(("code", 0, 1, 3)))
+
+        def op_compare_twins_with_distinct_origin_objects():
+            n = rng.choice(handles)
+            twin = build(U, spec_of[id(n)], origin_fn=lambda sp: O.build_origin(sp.origin, src=O.fresh_source)) if id(n) in spec_of else n.duplicate()
+            handles.append(twin)
+            snap_extra.update(take_frame(U, [twin]))
+            ctx.count("comparisons_with_equal_but_distinct_origin_objects")
+            _ = n == twin, twin == n, n in [twin], [twin].index(n) if n == twin else None
+
         def op_list_valued():
             # a list handed in for a tuple field is accepted while type checks are off; the node exists like any other
             ks = [k for k in rng.sample(nodes(), min(3, len(nodes()))) if isinstance(k, U.cls[f"{P}Expr"])]
@@ -526,7 +555,7 @@ def histories(ctx, U, state, take_frame, diff_frame):
             config.ID_DIGEST_SIZE = rng.choice([s_ for s_ in (4, 8, 16) if s_ != config.ID_DIGEST_SIZE])
             ctx.count("digest_size_switches")
 
-        ops = [op_config, op_copy, op_list_valued, op_traverse, op_tree, op_xpath, op_pattern, op_visit, op_duplicate, op_replace_ok, op_replace_fail, op_detach, op_twins, op_serialize, op_serialize, op_compare, op_rich]
+        ops = [op_config, op_copy, op_list_valued, op_origin_algebra, op_compare_twins_with_distinct_origin_objects, op_traverse, op_tree, op_xpath, op_pattern, op_visit, op_duplicate, op_replace_ok, op_replace_fail, op_detach, op_twins, op_serialize, op_serialize, op_compare, op_rich]
         snap_extra = {}
         for step in range(ctx.params["ops"]):
             op = rng.choice(ops)
